@@ -330,15 +330,25 @@ NEEDED = ["Base", "Term", "Expr", "DTerm", "Symbols", "Datalog", "Authz", "Wire"
 
 
 def snapshot_base():
-    """private base, COMPILED HERE from the committed sources of /verif (git HEAD:
-    coq/Generated.v, coq/Model/*.v): other agents rebuild /verif/coq while they test,
+    """private base, COMPILED HERE from the committed sources (git HEAD of /verif:
+    coq/Model/*.v; coq/Generated.v regenerated by /verif/build/gen from git HEAD of /repo): other agents rebuild /verif/coq while they test,
     so its .vo files cannot be relied on.  Only the dependency closure of what
     GenFnProofs.v imports is compiled."""
     shutil.rmtree(BASE, ignore_errors=True)
     os.makedirs(BASE)
-    ar = subprocess.run(["git", "-C", VERIF, "archive", "HEAD", "coq/Generated.v", "coq/Model"], stdout=subprocess.PIPE, check=True)
-    subprocess.run(["tar", "-x", "-C", BASE, "--strip-components=1", "--wildcards", "coq/Generated.v", "coq/Model/*.v"],
+    ar = subprocess.run(["git", "-C", VERIF, "archive", "HEAD", "coq/Model"], stdout=subprocess.PIPE, check=True)
+    subprocess.run(["tar", "-x", "-C", BASE, "--strip-components=1", "--wildcards", "coq/Model/*.v"],
                    input=ar.stdout, check=True)
+    # coq/Generated.v is not tracked: regenerate it with /verif/build/gen from the COMMITTED /repo
+    head = os.path.join(BASE, "repo_head")
+    os.makedirs(head)
+    ar = subprocess.run(["git", "-C", REPO, "archive", "HEAD"], stdout=subprocess.PIPE, check=True)
+    subprocess.run(["tar", "-x", "-C", head], input=ar.stdout, check=True)
+    r = sh([os.path.join(VERIF, "build", "gen"), head, os.path.join(BASE, "Generated.v")])
+    if r.returncode != 0:
+        print("cannot build the private base: gen failed\n" + r.stdout[-600:])
+        sys.exit(2)
+    shutil.rmtree(head)
     files = ["Generated.v"] + sorted("Model/" + f for f in os.listdir(os.path.join(BASE, "Model")) if f.endswith(".v"))
     dep = sh(["coqdep", "-Q", ".", "BV"] + files, cwd=BASE).stdout
     deps = {}
